@@ -193,8 +193,8 @@ def write_case_text(d, cid, fault="none", topo=None):
     lines = ["case %s mode=write mesh=%s topo=%s fault=%s" % (cid, d.mesh, topo or d.topo, fault)]
     if d.nv: lines.append("k AddVs %d" % d.nv)
     for (a, b) in d.E: lines.append("k @AddE %d %d 1" % (a, b))
-    for f in d.F: lines.append("k @AddF 0 " + " ".join(map(str, f)))
-    for c in d.C: lines.append("k @AddC 0 " + " ".join(map(str, c)))
+    for f in d.F: lines.append(("k @AddF 0 " + " ".join(map(str, f))) if f else "rawF")
+    for c in d.C: lines.append(("k @AddC 0 " + " ".join(map(str, c))) if c else "rawC")
     for l in d.extra_k: lines.append("k " + l)
     for v, p in sorted(d.pos.items()): lines.append("pos %d %s %s %s" % (v, p[0].hex(), p[1].hex(), p[2].hex()))
     for (k, t, n, df, vals) in d.props: lines.append("prop %s %s %s %s %s" % (k, t, hx(n), hx(df), " ".join(hx(v) for v in vals)))
@@ -442,7 +442,7 @@ def field_mutations(ast, quick_rng=None, budget=None):
                 if hi < 0 or hi >= len(c["handles"]): continue
                 for v in bset(w, (lim,)):
                     if v == c["handles"][hi]: continue
-                    a = copy.deepcopy(ast); a["chunks"][ci]["handles"][hi] = v; out.append(("c%dTOPO.handle[%d]=%d" % (ci, hi, v), a))
+                    a = copy.deepcopy(ast); a["chunks"][ci]["handles"][hi] = v; out.append(("c%dTOPO.handle[%d]=%d%s" % (ci, hi, v, "!oor" if v >= lim else ""), a))
             if c["valences"]:
                 for vi in sorted({0, len(c["valences"]) - 1}):
                     for v in bset(c["venc"], (c["valences"][vi],)):
@@ -477,7 +477,53 @@ def field_mutations(ast, quick_rng=None, budget=None):
     if quick_rng is not None and budget is not None and len(out) > budget:
         idx = sorted(quick_rng.shuffle(list(range(len(out))))[:budget])
         out = [out[i] for i in idx]
-    return [(lab, serialize(a)) for (lab, a) in out]
+    return [(lab, serialize(a), expect_reject(lab)) for (lab, a) in out]
+
+import re
+def expect_reject(label):
+    """C18 field classes: is a file with this single field changed INCONSISTENT with the rest of the file (so that it must be
+    rejected)?  True = must be rejected, None = no expectation (the changed file can be a consistent file)."""
+    m = re.match(r"hdr\.(\w+)", label)
+    if m:
+        f = m.group(1)
+        if f in ("magic", "reserved", "header_version", "vertex_dim", "ne", "nf", "nc", "nv"): return True
+        if f == "topo_type": return True if int(label.split("=")[1]) > 2 else None
+        return None
+    m = re.match(r"c\d+(\w*)\.(\w+)", label)
+    if not m: return None
+    tn, f = m.group(1), m.group(2)
+    if f in ("padding", "file_length", "type", "padbyte", "first", "count", "enc", "venc", "henc", "entity", "valence", "valences",
+             "reserved", "data_size", "strlen", "bool_default_2", "empty_name"): 
+        if tn == "EOF" and f == "type": return True
+        if tn == "DIRP" and f == "entity": return True if int(label.split("=")[1]) > 6 else None
+        return True
+    if f == "version": return True
+    if f == "flags": return True if int(label.split("=")[1]) > 1 else None
+    if f == "handle": return True if label.endswith("!oor") else None
+    if f == "default_size":
+        return None
+    return None
+
+def expect_reject_chunk(label, ast):
+    """chunk drop / duplicate / reorder: must the result be rejected?"""
+    m = re.match(r"(drop|dup|swap|eof@)(\d+)", label)
+    if not m: 
+        return True if label in ("eof_payload", "trailing_bytes", "trailing_16") else None
+    op, i = m.group(1), int(m.group(2))
+    cs = ast["chunks"]
+    t = cs[i]["type"]
+    if op == "drop": return True if t in (b"VERT", b"TOPO", b"EOF ", b"DIRP") and (t != b"DIRP" or any(c["type"] == b"PROP" for c in cs)) else None
+    if op == "dup": return True if t in (b"VERT", b"TOPO", b"EOF ", b"DIRP") else None
+    if op == "eof@": return True
+    if op == "swap":
+        a, b = t, cs[i + 1]["type"]
+        if b == b"EOF ": return True
+        if a == b"DIRP" and b == b"PROP": return True
+        if a == b"VERT" and b == b"TOPO": return True
+        if a == b"TOPO" and b == b"TOPO" and cs[i]["entity"] != cs[i + 1]["entity"]: return True
+        if a == b == b"VERT" or (a == b == b"TOPO"): return True
+        return None
+    return None
 
 def chunk_mutations(rng, ast):
     """drop / duplicate / reorder (adjacent swap + EOF moved) / split-in-the-wrong-way of whole chunks"""
@@ -494,7 +540,7 @@ def chunk_mutations(rng, ast):
     a = copy.deepcopy(ast); a["chunks"].append({"type": b"EOF ", "version": 0, "compression": 0, "flags": 1, "body": b"\0" * 8}); out.append(("eof_payload", serialize(a)))
     out.append(("trailing_bytes", serialize(ast) + b"\0\0\0"))
     out.append(("trailing_16", serialize(ast) + b"\0" * 16))
-    return out
+    return [(lab, data, expect_reject_chunk(lab, ast)) for (lab, data) in out]
 
 def noise(rng, data, n):
     out = []
